@@ -1,4 +1,5 @@
 import PqV.Drv.Kern
+import PqV.Drv.Filter
 /-
   `pqv` — line-protocol driver over the executable definitions of PqV (Spec, Impl, Gen).
   One request per line on stdin, one reply per line on stdout.  Pure per line.
@@ -13,6 +14,7 @@ def handleLine (line : String) : String :=
     match stream with
     | "kern" => handleKern op a
     | "spec" => handleSpec op a
+    | "filter" => handleFilter op a
     | _ => s!"err unknown-stream {stream}"
   | _ => "err bad-request"
 
